@@ -306,6 +306,32 @@ def body(spec, stats, sys=None):
     stats.cls("solved")
 
 
+def _merge_cases():
+    """Inputs S (source), R (child of S) and X (another source) in every declaration order;
+    R is then deleted keeping its children, so that S and R merge into one input; S alive or
+    dead (0 V / phase-inactive); X at a different voltage.  (exhaustive axis)"""
+    import itertools
+    from vlib.props.c03 import _spec2
+
+    out = []
+    for order in itertools.permutations(["S", "R", "X"]):
+        for sdead in ("alive", "zero", "phase"):
+            for rs in ("scalar", "list"):
+                nodes = [("S", "Source", [], {"vo": 0.0 if sdead == "zero" else 12.0}),
+                         ("X", "Source", [], {"vo": 5.0}),
+                         ("R", "RLoss", ["S"], {"rs": 0.1}),
+                         ("Mux", "PMux", list(order),
+                          {"rs": 0.05 if rs == "scalar" else [0.05, 0.06, 0.07]}),
+                         ("L", "ILoad", ["Mux"], {"ii": 0.2}),
+                         ("LR", "ILoad", ["R"], {"ii": 0.1})]
+                spec = _spec2(nodes)
+                spec["phases"] = {"a": 1.0, "b": 2.0}
+                if sdead == "phase":
+                    spec["nodes"][0]["pconf"] = ["b"]
+                out.append({"spec": spec, "picks": [[list(order).index("R"), False, False]]})
+    return out
+
+
 def streams(tier, avoid):
     ren = st.fixed_dictionaries({
         "spec": mux_systems(avoid),
@@ -314,4 +340,5 @@ def streams(tier, avoid):
     return [Stream("mux", body, strategy=mux_systems(avoid),
                    n={"quick": 350, "thorough": 2500}, reduce=S.reductions),
             Stream("renamed_inputs", body_renamed, strategy=ren,
-                   n={"quick": 120, "thorough": 1000})]
+                   n={"quick": 120, "thorough": 1000}),
+            Stream("merged_inputs", body_renamed, cases=_merge_cases())]
